@@ -50,6 +50,17 @@ def strings(cfg, rng):
             yield WT.gen_text(rng)
         elif c < 0.93:
             yield WT.mutate(rng, WT.gen_text(rng), foreign=0.3)
+        elif c < 0.96:
+            # long runs: a token may be arbitrarily long
+            n1 = rng.randint(33, 120)
+            kind = rng.random()
+            if kind < 0.4:
+                yield rng.choice(["", "x+", "2*"]) + "".join(rng.choice("0123456789") for _ in range(n1)) + rng.choice(["", ".5", "x", " + 1"])
+            elif kind < 0.8:
+                pre = "".join(rng.choice("abxyzq") for _ in range(rng.choice([29, 30, 31, 32, 33, 61, 64, 65])))
+                yield pre + rng.choice(["sgn", "sgn(x)", "sg", "sgnn"]) + rng.choice(["", "(x)", " "])
+            else:
+                yield "x" + " " * n1 + "+" + "\t" * rng.randint(1, 40) + "y"
         else:
             k = rng.choice(["s", "sg", "sgn", "sgnn", "ssgn", "gn", "SGN", "sgN"])
             yield rng.choice(["", "x", "2", "(", " "]) + k + rng.choice(["", "(", "(x)", "x", " (x)", "2"])
